@@ -47,7 +47,13 @@ manifest = {
             "path": "run.py",
             "serves_properties": sorted(CHECKS),
             "kind_free_text": "property-based testing: Hypothesis generators plus bounded-exhaustive enumeration as structured generators, explicit reference oracles (vf/refs.py, vf/model.py), 16-way sharding, shrunk replay files",
-        }
+        },
+        {
+            "name": "vf-fuzz",
+            "path": "vf/fuzz.py",
+            "serves_properties": ["C07", "C08"],
+            "kind_free_text": "coverage-guided supplement of the thorough tiers: atheris/libFuzzer drives the property's own Hypothesis strategy + oracle through fuzz_one_input with anytree instrumented; skipped (and said so in the evidence) if atheris is not installable",
+        },
     ],
     "checks": [CHECKS[p] for p in sorted(CHECKS)],
     "not_applicable": [{"property_id": p, "reason": NOT_APPLICABLE[p]} for p in sorted(NOT_APPLICABLE)],
